@@ -270,6 +270,9 @@ pub fn run(cfg: &Cfg, rep: &mut Rep) {
     // and year limits +- a few ns), decoded into fields by the model and constructed from them
     let mut li = 0usize;
     for ts in SCALES {
+        if cfg.fuzz {
+            break;
+        }
         for c in crate::gen::reading_lattice(ts, &tab) {
             li += 1;
             if li % NSHARDS as usize != sh as usize {
@@ -283,7 +286,7 @@ pub fn run(cfg: &Cfg, rep: &mut Rep) {
         }
     }
     // sampled years out to +-30000
-    let nfar = cfg.budget(16_000).max(200);
+    let nfar = if cfg.fuzz { FUZZ_ITERS } else { cfg.budget(16_000).max(200) };
     for _ in 0..nfar {
         let y = match r.below(4) {
             0 => r.range_i64(-30000, 0),
@@ -315,6 +318,7 @@ pub fn run(cfg: &Cfg, rep: &mut Rep) {
         }
     };
     for k in 0..nrej {
+        let k = cfg.k(k, &mut r);
         let y = if r.chance(1, 4) { r.range_i64(-30000, 30000) } else { r.range_i64(1890, 2030) } as i32;
         // start from a valid tuple, then push 1-2 fields to lattice values
         let mut m = 1 + r.below(12);
@@ -346,7 +350,7 @@ pub fn run(cfg: &Cfg, rep: &mut Rep) {
     // second = 60 on every 30 Jun / 31 Dec 1960..2030 (and other dates), crossed with every time of day class and every
     // nanosecond class: the leap-second acceptance must not bypass any other field's check
     for y in 1960..=2030 {
-        if (y as u32) % NSHARDS != sh {
+        if (y as u32) % NSHARDS != sh || cfg.fuzz {
             continue;
         }
         for (m, d) in [(6u8, 30u8), (12, 31), (3, 31), (6, 29), (12, 30), (1, 1), (7, 1)] {
